@@ -121,6 +121,15 @@ def rule_c(ctx, out):
                     out.bad("id_to_asm_bytecode:push-not-rendered-canonically", "a PUSH constant is not rendered as hex(int(v))[2:]", where(f, n))
     if not found:
         raise AnalysisError("id_to_asm_bytecode: PUSH branch not found")
+    # the rendered integer is in [0, 2^256): every producer of folded constants stays in the word domain (shared with C03.b)
+    from ..core.report import RuleOut
+    from . import C03
+    tmp = RuleOut("C09.c", "")
+    C03.rule_b(ctx, tmp)
+    dom = [x for x in tmp.findings if "out-of-domain" in x.key]
+    out.instances += tmp.instances
+    out.satisfied += tmp.instances - len(dom)
+    out.findings.extend(dom)
     # NOP filtered, nothing else dropped
     g = ctx.func("solution_generation.ids2asm.id_seq_to_asm_bytecode")
     comps = [n for n in own_nodes(g.node) if isinstance(n, ast.ListComp)]
